@@ -203,4 +203,10 @@ VARIANTS = [
     dict(id="c12-draw-margin-team-count", fire=["C12", "C11"], all5=True, file=PL, old="            math.sqrt(total_player_count)\n", new="            math.sqrt(n)\n"),
     dict(id="c12-two-team-count", fire=["C12"], silent=["C09"], all5=True, file=PL, old="                    total_player_count * self.beta**2\n", new="                    n * self.beta**2\n"),
     dict(id="c12-silent-complement-form", silent=["C12", "C09", "C11"], all5=True, file=PL, old="            return [result, 1 - result]", new="            other = 1 - result\n            return [1 - other, other]"),
+    # ------------------------------------------------------------------ C01 (explicit games against the transcribed closed forms)
+    dict(id="c01-pl-gamma-squared", fire=["C01"], silent=["C07", "C16"], file=PL, old="            delta *= gamma_value\n", new="            delta *= gamma_value * gamma_value\n"),
+    dict(id="c01-btf-variance-step-doubled", fire=["C01", "C19"], silent=["C07", "C16"], file=BTF, old="                delta += ((gamma_value * sigma_squared_to_ciq) / c_iq) * piq * (1 - piq)", new="                delta += ((2 * gamma_value * sigma_squared_to_ciq) / c_iq) * piq * (1 - piq)"),
+    dict(id="c01-tmf-scale-three-beta", fire=["C01"], silent=["C16"], file=TMF, old="team_i.sigma_squared + team_q.sigma_squared + (2 * beta**2)", new="team_i.sigma_squared + team_q.sigma_squared + (3 * beta**2)"),
+    dict(id="c01-silent-share-hoisted", silent=["C01", "C05", "C06"], file=PL, old="                mu += (sigma**2 / team_i.sigma_squared) * omega\n                sigma *= math.sqrt(\n                    max(1 - (sigma**2 / team_i.sigma_squared) * delta, self.kappa),\n                )",
+         new="                share = sigma * sigma / team_i.sigma_squared\n                mu += omega * share\n                sigma *= math.sqrt(max(self.kappa, 1 - delta * share))"),
 ]
